@@ -367,7 +367,8 @@ def run_C05(tier, seed):
         ns, _ = parse_dump(last["real"])
         if any(not x["exp"] for x in ns) or any("seeds" not in it for it in items) or len(items) != len(ns):
             return out          # not every node expanded/skipped and queried: clause does not apply
-        if not any(x["skip"] for x in ns):
+        skip_op = any(o[0] in ("skipmin", "skiprem") or (o[0] == "min" and len(o) > 3 and o[3]) for o in w["case"]["history"])
+        if not any(x["skip"] for x in ns) and not skip_op:
             return out
         allseeds = [s for it in items for s in it["seeds"]]
         lost = [a for a in w["attractors"] if not any(s in a for s in allseeds)]
